@@ -207,10 +207,11 @@ def retry_rejected(v, binary, triples, tag="retry"):
     on one instance with asm_set_offset(0) in between, and once more after a valid line - a rejection must not depend on whether
     the very same text was seen just before (whatever a failed parse leaves behind must not be reused). Returns #checks that held."""
     cases, meta = [], []
+    VALID = ["nop", "setnle r9b", "vpaddb ymm10, ymm11, ymm12", "mov rax, 0x1122334455667788", "add qword [rbx+rcx*2], 7", "jmp short 4", "lea r15, [rax+rsp]", "cmovnae r10w, r11w"]
     for (c, m, text) in triples:
         hx_ = common.hx(text)
         cmds = ["new 0 ext 128 H 0xcc", "opt 0 mov %s" % m[0], "opt 0 swap %s" % m[1], "opt 0 nobase %s" % m[2],
-                "asm 0 %s" % hx_, "setoff 0 0", "asm 0 %s" % hx_, "setoff 0 0", "asm 0 %s" % common.hx("nop"), "asm 0 %s" % hx_, "setoff 0 0", "asm 0 %s" % hx_, "guard 0"]
+                "asm 0 %s" % hx_, "setoff 0 0", "asm 0 %s" % hx_, "setoff 0 0", "asm 0 %s" % common.hx(VALID[len(cases) % len(VALID)]), "asm 0 %s" % hx_, "setoff 0 0", "asm 0 %s" % hx_, "guard 0"]
         cases.append(cmds)
         meta.append((c, m, text))
     res = common.run_cases(binary, cases, tag=v.prop.lower() + tag)
